@@ -342,6 +342,11 @@ pub fn hammer(sseed: u64, threads: usize, ops: usize, rep: &mut Report) -> (AlgC
     let mut rng = Prng::new(sseed);
     let mut c = gen_alg(&mut rng);
     c.thr_us = 100;
+    let steady = rng.chance(0.6);
+    if steady && c.vegas {
+        c.alpha = c.alpha.max(1);
+        c.beta = c.beta.max(c.alpha);
+    }
     let alg = Arc::new(build_alg(&c));
     let stop = Arc::new(AtomicBool::new(false));
     let name = if c.vegas { "vegas" } else { "aimd" };
@@ -353,11 +358,21 @@ pub fn hammer(sseed: u64, threads: usize, ops: usize, rep: &mut Report) -> (AlgC
         hs.push(std::thread::spawn(move || {
             let mut bad = vec![];
             for _ in 0..ops {
-                match r.below(4) {
-                    0 => a.record_failure(),
-                    1 => a.record_dropped(),
-                    2 => a.record_success(Duration::from_micros(r.range(1, 90))),
-                    _ => a.record_success(Duration::from_micros(r.range(101, 5000))),
+                if steady {
+                    // a steady latency with rare slow samples and failures keeps Vegas/AIMD moving
+                    // up and down next to their bounds
+                    match r.below(20) {
+                        0 => a.record_failure(),
+                        1 | 2 => a.record_success(Duration::from_micros(5000)),
+                        _ => a.record_success(Duration::from_micros(50)),
+                    }
+                } else {
+                    match r.below(4) {
+                        0 => a.record_failure(),
+                        1 => a.record_dropped(),
+                        2 => a.record_success(Duration::from_micros(r.range(1, 90))),
+                        _ => a.record_success(Duration::from_micros(r.range(101, 5000))),
+                    }
                 }
                 let l = a.limit();
                 if l < min || l > max {
